@@ -232,6 +232,12 @@ fixed("F16", ["C13", "C16"], "f9cd2a2",
            x={"mode": "seq", "n": 2, "prog2": prog("t0: spawn(1); TlsBump(k=0) || t1: Yield")},
            cfg={"max_permutations": 400, "checkpoint_interval": 1}))
 
+fixed("F6", ["C01", "C02", "C15", "C18"], "f45e043",
+      "one last_access per atomic: a thread's own load masked another thread's earlier load when its store looked for a dependent "
+      "access, so main: x=1; r0=x || t: r1=x; x=2 never yielded (r0,r1)=(2,1)",
+      ["missing_outcome"],
+      case("C01", "corpus", "t0: spawn(1); st(x0,1,sc); ld(x0,sc) || t1: ld(x0,sc); st(x0,2,sc)"))
+
 if __name__ == "__main__":
     out = os.path.join(os.path.dirname(os.path.abspath(__file__)), "..", "known_findings.json")
     json.dump({"findings": F}, open(out, "w"), indent=1)
